@@ -23,9 +23,16 @@ Inductive ofac := FExact (q : Qc) | FFloat.
 Inductive obase := OB (f : ofac) (u : uc) | OBErr (e : xerr) | OBRange.
 Inductive oname := ON (n : string) | ONErr (e : xerr).
 
+(** a set against the duplicate-free list the harness observed; the comparison goes through the
+    decoded names (building a [gset string] from hundreds of names is slow in the VM) *)
+Definition set_eq_list (s : sset) (l : list string) : bool :=
+  let e := elements s in
+  Nat.eqb (length e) (length l) && forallb (λ x, existsb (String.eqb x) l) e.
+Definition oset_eq_list (s : option sset) (l : option (list string)) : bool :=
+  match s, l with Some s, Some l => set_eq_list s l | None, None => true | _, _ => false end.
 Definition set_ok (x : res sset) (o : oset) : bool :=
   match x, o with
-  | Ok s, OSet l => bool_decide (s = list_to_set l)
+  | Ok s, OSet l => set_eq_list s l
   | Err e, OSErr e' => xerr_eqb (class_of e) e'
   | _, _ => false
   end.
@@ -116,15 +123,13 @@ Definition sstep (qk : quirks) (r : reg) (tbl : list (string * uc)) (st : sstate
   | PGroupState g own used usedby memo =>
       (st, match ss_groups st !! g with
            | None => false
-           | Some x => bool_decide (g_units x = lset own) && bool_decide (g_used x = lset used)
-                       && bool_decide (g_used_by x = lset usedby)
-                       && bool_decide (g_memo x = option_map lset memo)
+           | Some x => set_eq_list (g_units x) own && set_eq_list (g_used x) used
+                       && set_eq_list (g_used_by x) usedby && oset_eq_list (g_memo x) memo
            end)
   | PSysState s t used memo =>
       (st, match ss_systems st !! s with
            | None => false
-           | Some x => tbl_eqb (s_base x) t && bool_decide (s_used x = lset used)
-                       && bool_decide (s_memo x = option_map lset memo)
+           | Some x => tbl_eqb (s_base x) t && set_eq_list (s_used x) used && oset_eq_list (s_memo x) memo
            end)
   end.
 (** index of the first step that disagrees ([None] = the whole run agrees) *)
